@@ -30,6 +30,11 @@ CLAIMED = {
         "Static: keys/major_keys/minor_keys/base_scale equal the oracle; for every table row the residual of get_notes, get_key_signature, get_key_signature_accidentals, relative_major/minor and Key.__init__ equals the oracle value (tonic first, consecutive letters, major / natural-minor pattern, signature count/sign/order); get_key selects row n + offset for -7..7 and raises RangeError on both unbounded sides; unknown keys are rejected; second..seventh return the key note k letters above for every spelling of the start note.",
         "The quantifier '30 keys' is the constant table in the source, so specialisation to each row is exhaustive. Memo transparency is decided under C15. Trusted: CPython ast, abstract evaluator (variants/c04.py), oracle in engine/notesdom.py (self-checked against the step patterns).",
         "DESIGN.md section 2, C04"),
+    "C05": (
+        "offset-domain abstract interpretation of ascending()/descending() of all 17 scale classes with a symbolic octave count; value-kind evaluation of degree(); policy-driven abstract evaluation of scales.determine exposing the note sets it tests",
+        "Static: for every class (tonic = 7 letters x arbitrary accidentals for interval-built scales, every row of the constant key table for key-built ones) ascending() is period * n + [tonic] for a symbolic n with the period equal to the defining step pattern on consecutive letters (heptatonic), descending() is the exact reverse or the documented melodic-minor / minor-Neapolitan form; degree(k, 'a'|'d') selects index k-1 of the right list for symbolic k and rejects k<1 / unknown directions; determine tests exactly the ascending and descending sets of the 7 major/minor-family classes over the 15 key pairs and appends the matching scale's name.",
+        "Not decided: tonics outside the key table for key-built scales; recognition on enharmonic respellings. Trusted: CPython ast, abstract evaluator (variants/c05.py), PATTERNS oracle, C01/C02/C04 summaries.",
+        "DESIGN.md section 2, C05"),
     "C06": (
         "offset-domain abstract interpretation of every chord builder (interval constructors summarised by their C02 post-condition) against a meaning-keyed chord-theory oracle; table agreement; abstract evaluation of the shorthand parser on root shapes x keys, aliases, slash, polychord, NC, list and malformed classes",
         "Static: each of the shorthand builders (incl. the lambda) yields, for 7 root letters x arbitrary accidentals, exactly the (letter, semitone) list its meaning prescribes; chord_shorthand and chord_shorthand_meaning have equal key sets; from_shorthand maps every key, every min/mi/-/maj/ma alias spelling, slash basses, polychords, NC and list input to the right builder result and rejects unknown suffixes / bad roots / bad basses with the documented errors.",
